@@ -7,7 +7,7 @@ import asyncio
 from .fam_common import Bench
 
 
-def run_scenario(scn: dict, *, eager: bool = False, uv: bool = False) -> dict:
+def run_scenario(scn: dict, *, retry: bool = False, eager: bool = False, uv: bool = False) -> dict:
     import sys
     from .replay import ensure_repo_on_path
     ensure_repo_on_path()
@@ -46,4 +46,4 @@ def run_scenario(scn: dict, *, eager: bool = False, uv: bool = False) -> dict:
             elif op == "end":
                 break
 
-    return b.run(setup, client, eager=eager, uv=uv)
+    return b.run(setup, client, eager=eager, uv=uv, retry=retry)
